@@ -2,6 +2,7 @@ package sim
 
 import (
 	"runtime"
+	"sync"
 	"unsafe"
 )
 
@@ -100,6 +101,9 @@ type Sched struct {
 	seq        uint64
 
 	driver handoff
+	// wg orders the end of every task before the driver continues after Run (in race builds the
+	// hand-off itself creates no happens-before edge, on purpose).
+	wg sync.WaitGroup
 }
 
 var active *Sched
@@ -156,6 +160,7 @@ func (s *Sched) Go(fn func()) *Task {
 	t := &Task{ID: len(s.tasks), fn: fn}
 	t.ClockReads = make([]ClockRead, 0, 1024)
 	t.h.init()
+	s.wg.Add(1)
 	s.tasks = append(s.tasks, t)
 	return t
 }
@@ -201,11 +206,13 @@ func (s *Sched) Run() {
 	s.cur = first.ID
 	first.h.unpark()
 	s.driver.park()
+	s.wg.Wait()
 	active = nil
 }
 
 //go:norace
 func (s *Sched) taskMain(t *Task) {
+	defer s.wg.Done()
 	t.h.park()
 	defer s.taskExit(t)
 	if s.Aborted {
